@@ -273,6 +273,9 @@ type Listener struct {
 	accepted []*Stream
 	// Prepare, if set, is applied to every server-side stream before it can be accepted.
 	Prepare func(server *Stream)
+	// ClosedErr, if set, is what Accept returns once the listener is closed (listeners that wrap
+	// others - multiplexers, in-memory listeners - have sentinels of their own, not net.ErrClosed).
+	ClosedErr error
 }
 
 // NewListener returns a simulated listener.
@@ -304,6 +307,9 @@ func (l *Listener) Accept() (net.Conn, error) {
 	defer l.mu.Unlock()
 	for {
 		if l.closed {
+			if l.ClosedErr != nil {
+				return nil, l.ClosedErr
+			}
 			return nil, net.ErrClosed
 		}
 		if len(l.queue) > 0 {
